@@ -136,6 +136,21 @@ func newExpectedError(p Pos, what string) error {
 	return &ExpectedError{newBaseError(p), what}
 }
 
+// NestingError is generated when expressions or elseif branches nest deeper than
+// the parser, the node visitors and the executor - all recursive - can follow.
+type NestingError struct {
+	baseError
+}
+
+func (e *NestingError) Error() string {
+	return e.sprintf(`nested too deeply (more than %d levels)`, maxDepth)
+}
+
+// newNestingError returns a new NestingError.
+func newNestingError(p Pos) error {
+	return &NestingError{newBaseError(p)}
+}
+
 // MultipleExtendsError describes an attempt to extend from multiple parent templates.
 type MultipleExtendsError struct {
 	baseError
